@@ -218,3 +218,45 @@ def consts_in(stmt):
                 walk(v)
     walk(stmt)
     return out
+
+
+def cmp_facts(conds):
+    """comparison conditions of a path in canonical form: list of ('<' | '<=', x, y) meaning x < y / x <= y holds"""
+    out = []
+    for a, v in conds:
+        if a[0] != "b" or not isinstance(a[1], tuple) or not a[1] or not isinstance(v, bool):
+            continue
+        t = a[1]
+        if t[0] == "bin" and t[1] in ("Lt", "Le", "Gt", "Ge"):
+            op, x, y = t[1], t[2], t[3]
+        elif t[0] == "cmp" and t[1] in ("lt", "le", "gt", "ge"):
+            op, x, y = t[1].capitalize(), t[2], t[3]
+        else:
+            continue
+        if not v:
+            op = {"Lt": "Ge", "Le": "Gt", "Gt": "Le", "Ge": "Lt"}[op]
+        if op == "Lt":
+            out.append(("<", x, y))
+        elif op == "Le":
+            out.append(("<=", x, y))
+        elif op == "Gt":
+            out.append(("<", y, x))
+        else:
+            out.append(("<=", y, x))
+    return out
+
+
+def holds_lt(conds, x, y):
+    """x < y is one of the path's comparison conditions, in any spelling (x < y, !(x >= y), y > x, !(y <= x))"""
+    return ("<", x, y) in cmp_facts(conds)
+
+
+def const_upper_bound(conds, x):
+    """least N with `x < N` among the path's comparisons of x against integer constants (None if there is none)"""
+    from .symex import cint
+    best = None
+    for op, a, b in cmp_facts(conds):
+        if a == x and cint(b) is not None:
+            n = cint(b) if op == "<" else cint(b) + 1
+            best = n if best is None else min(best, n)
+    return best
